@@ -21,8 +21,10 @@ fn v_bool(b: bool) -> Sx { Sx::l(vec![Sx::n(3), Sx::b(b)]) }
 fn v_int(z: i64) -> Sx { Sx::l(vec![Sx::n(0), Sx::i(z)]) }
 fn v_str(s: &str) -> Sx { Sx::l(vec![Sx::n(2), Sx::s(s)]) }
 /// the designated value of a field (what a consistent rule concludes) and a wrong one
-fn good(i: usize) -> Sx { match KIND[i] { T::B => v_bool(true), T::I => v_int(5 + i as i64), T::S => v_str("gold") } }
-fn wrong(i: usize, rng: &mut Rng) -> Sx { match KIND[i] { T::B => v_bool(false), T::I => v_int(*rng.pick(&[0i64, 1, 99])), T::S => v_str("silver") } }
+thread_local! { static OPSTR: std::cell::Cell<bool> = std::cell::Cell::new(false); }
+/// per case: plain string values, or string values that contain operator characters (a goal `F == "a>=b"` has ONE operator)
+fn good(i: usize) -> Sx { match KIND[i] { T::B => v_bool(true), T::I => v_int(5 + i as i64), T::S => v_str(if OPSTR.with(|c| c.get()) { "a>=b" } else { "gold" }) } }
+fn wrong(i: usize, rng: &mut Rng) -> Sx { match KIND[i] { T::B => v_bool(false), T::I => v_int(*rng.pick(&[0i64, 1, 99])), T::S => v_str(if OPSTR.with(|c| c.get()) { "x == y" } else { "silver" }) } }
 
 fn leaf(rng: &mut Rng, live: &[usize]) -> Sx {
     let i = *rng.pick(live);
@@ -41,6 +43,7 @@ fn group(rng: &mut Rng, live: &[usize], depth: u32, conj_only: bool) -> Sx {
 }
 
 fn gen_case(rng: &mut Rng, history: bool) -> Sx {
+    OPSTR.with(|c| c.set(rng.chance(1, 4)));
     let nf = rng.range(3, FIELDS.len() as u64) as usize;
     let live: Vec<usize> = (0..nf).collect();
     let nr = rng.range(1, 8) as usize;
